@@ -30,6 +30,11 @@ def h_api(L, T, parts):
         acc = accessors(I, T, p)
         disp = display(I, T, p)
         L.expect_native(req, {'ok': obs_expect(acc, disp)})
+        # formatting under the flags a format string can set ({:1}, {:>80}, {:*^3}, {:#}, {:.3}, {:+}): no panic either
+        for kw in ({'width': 1}, {'width': 80, 'align': 'Right'}, {'width': 3, 'align': 'Center', 'fill': 0x2A}, {'alternate': True}, {'precision': 3}, {'sign_plus': True}):
+            f = Formatter(**{k: v for k, v in kw.items() if k not in ('align', 'fill')})
+            f.align, f.fill = kw.get('align'), kw.get('fill', 0x20)
+            I.call('<GenericPurl<%s> as Display>::fmt' % tytext(T), [Ref([p], 0), Ref([f], 0)])
         cl = I.trait_call('Clone', 'clone', purl_ty(T), [Ref([p], 0)])
         b = I.call('GenericPurl::<%s>::into_builder' % tytext(T), [cl])
         b_build(I, T, b)
@@ -200,6 +205,8 @@ def native_request(v):
 
 
 def confirm(v, resp):
+    if isinstance(resp.get('ok'), dict) and resp['ok'].get('fmt_panics'):
+        return 'formatting %r with %s panics' % (hx(resp['ok']['disp']).decode('utf8', 'replace'), ', '.join(resp['ok']['fmt_panics']))
     if 'panic' in resp:
         req = v['case']
         if req.get('op') == 'quals' and req['steps'] and req['steps'][0][0] in ('index', 'index_set') and 'not found' in resp['panic']:
